@@ -1,1 +1,518 @@
-//! C02 harnesses (Engine K)
+//! C02 — kernel contracts of the 256-bit arithmetic in `math/u256_math.rs` (Engine K).
+//!
+//! The other engine (M, `props/c02.py`) treats these kernels as primitives with integer contracts
+//! (K1–K12 in its ASSUMPTIONS). This file proves K1–K11 at full width against a reference that is written
+//! with two native `u128` halves (`R = (h, l)`, value = h·2^128 + l) resp. four `u64` limbs with `u128`
+//! carries, and smoke-checks K12 (`U256Muldiv::div`) on sub-domains only.
+//!
+//! Layout
+//!   §0 reference model
+//!   §1 K2–K10: new / add / sub / word shifts / bit shifts / compare / is_zero / try_into_u128 / From / add-inverse
+//!   §2 K1 `mul_u256`, K11 `U256Muldiv::mul`
+//!   §3 K12 smoke checks of `U256Muldiv::div` (an *assumed* kernel of Engine M)
+//!   §4 twin
+use crate::common::*;
+use ::whirlpool::math::u256_math::{mul_u256, U256Muldiv};
+
+// ---------------------------------------------------------------------------------------------
+// §0 reference model: a 256-bit value is (h, l) = h·2^128 + l; limbs w0..w3 little endian
+
+#[derive(Copy, Clone, PartialEq, Eq)]
+struct R {
+    h: u128,
+    l: u128,
+}
+
+fn any_r() -> R {
+    R { h: kani::any(), l: kani::any() }
+}
+fn mk(r: R) -> U256Muldiv {
+    U256Muldiv::new(r.h, r.l)
+}
+/// value of a U256Muldiv read through its public word getter
+fn val(u: &U256Muldiv) -> R {
+    R {
+        l: (u.get_word(0) as u128) | ((u.get_word(1) as u128) << 64),
+        h: (u.get_word(2) as u128) | ((u.get_word(3) as u128) << 64),
+    }
+}
+fn r_add(a: R, b: R) -> R {
+    let (l, c) = a.l.overflowing_add(b.l);
+    R { h: a.h.wrapping_add(b.h).wrapping_add(c as u128), l }
+}
+fn r_sub(a: R, b: R) -> R {
+    let (l, c) = a.l.overflowing_sub(b.l);
+    R { h: a.h.wrapping_sub(b.h).wrapping_sub(c as u128), l }
+}
+fn r_lt(a: R, b: R) -> bool {
+    a.h < b.h || (a.h == b.h && a.l < b.l)
+}
+/// a·2^n mod 2^256 for n < 256
+fn r_shl(a: R, n: u32) -> R {
+    if n == 0 {
+        a
+    } else if n < 128 {
+        R { h: (a.h << n) | (a.l >> (128 - n)), l: a.l << n }
+    } else if n == 128 {
+        R { h: a.l, l: 0 }
+    } else {
+        R { h: a.l << (n - 128), l: 0 }
+    }
+}
+/// floor(a / 2^n) for n < 256
+fn r_shr(a: R, n: u32) -> R {
+    if n == 0 {
+        a
+    } else if n < 128 {
+        R { h: a.h >> n, l: (a.l >> n) | (a.h << (128 - n)) }
+    } else if n == 128 {
+        R { h: 0, l: a.h }
+    } else {
+        R { h: 0, l: a.h >> (n - 128) }
+    }
+}
+/// schoolbook product of two u128 from four u64×u64→u128 partial products, column-wise with explicit carries.
+/// `CHECKED` only selects how the four u64·u64 products (always < 2^128) are written: with `*` on `x & M` / `x >> 64`
+/// (term for term what `mul_u256` multiplies, so that a word-level solver sees the same `bvmul` terms on both sides
+/// and only has to check the carry logic) or with `wrapping_mul` (the plain 128-bit product of `U256Muldiv::mul`).
+/// Same value either way. Measured: with the SAT back end the full-width comparison is chaotic (134 s … > 900 s
+/// depending on the crate hash), with cvc5 it takes 50–70 s.
+fn r_mul128<const CHECKED: bool>(v: u128, n: u128) -> R {
+    const M: u128 = u64::MAX as u128;
+    let (p00, p01, p10, p11) = if CHECKED {
+        ((v & M) * (n & M), (v & M) * (n >> 64), (v >> 64) * (n & M), (v >> 64) * (n >> 64))
+    } else {
+        let (v0, v1) = (v as u64 as u128, (v >> 64) as u64 as u128);
+        let (n0, n1) = (n as u64 as u128, (n >> 64) as u64 as u128);
+        (v0.wrapping_mul(n0), v0.wrapping_mul(n1), v1.wrapping_mul(n0), v1.wrapping_mul(n1))
+    };
+    let w0 = p00 & M;
+    let col1 = (p00 >> 64) + (p01 & M) + (p10 & M); // < 3·2^64
+    let w1 = col1 & M;
+    let col2 = (col1 >> 64) + (p01 >> 64) + (p10 >> 64) + (p11 & M); // < 4·2^64
+    let w2 = col2 & M;
+    let w3 = (col2 >> 64) + (p11 >> 64); // < 2^64: the product is < 2^256
+    R { h: w2 | (w3 << 64), l: w0 | (w1 << 64) }
+}
+
+// ---------------------------------------------------------------------------------------------
+// §1 K2–K10
+
+/// K2: `U256Muldiv::new(h, l)` has value h·2^128 + l — `get_word(i)`/`get_word_u128(i)` are the four 64-bit limbs;
+/// all (h, l)
+// @verif prop=C02 tier=quick timeout=300
+#[kani::proof]
+#[kani::unwind(5)]
+fn c02_k2_new_words() {
+    let h: u128 = kani::any();
+    let l: u128 = kani::any();
+    let u = U256Muldiv::new(h, l);
+    assert!(u.get_word(0) == l as u64);
+    assert!(u.get_word(1) == (l >> 64) as u64);
+    assert!(u.get_word(2) == h as u64);
+    assert!(u.get_word(3) == (h >> 64) as u64);
+    let i: usize = kani::any();
+    kani::assume(i < 4);
+    assert!(u.get_word_u128(i) == u.get_word(i) as u128);
+    assert!(u.items[i] == u.get_word(i));
+    let v = val(&u);
+    assert!(v.h == h && v.l == l);
+    kani::cover!(u.get_word(3) != 0 && u.get_word(0) != 0, "top and bottom limb set");
+}
+
+/// K3: `add` = (a + b) mod 2^256 for all 256-bit a, b (reference: two u128 halves with carry)
+// @verif prop=C02 tier=quick timeout=300
+#[kani::proof]
+#[kani::unwind(5)]
+fn c02_k3_add() {
+    let a = any_r();
+    let b = any_r();
+    let s = mk(a).add(mk(b));
+    assert!(val(&s) == r_add(a, b));
+    kani::cover!(r_lt(r_add(a, b), a), "sum wraps past 2^256");
+    kani::cover!(a.l.checked_add(b.l).is_none() && !r_lt(r_add(a, b), a), "carry out of the low half, no wrap");
+}
+
+/// K4: `sub` = (a − b) mod 2^256 (two's complement) for all 256-bit a, b
+// @verif prop=C02 tier=quick timeout=300
+#[kani::proof]
+#[kani::unwind(5)]
+fn c02_k4_sub() {
+    let a = any_r();
+    let b = any_r();
+    let d = mk(a).sub(mk(b));
+    assert!(val(&d) == r_sub(a, b));
+    // and it inverts add
+    assert!(val(&d.add(mk(b))) == a);
+    kani::cover!(r_lt(a, b), "difference wraps below 0");
+    kani::cover!(!r_lt(a, b) && a.l < b.l, "borrow from the high half, no wrap");
+}
+
+/// K5/K6/K7: `shift_word_left` = a·2^64 mod 2^256; `checked_shift_word_left` = None iff the top limb ≠ 0, else
+/// a·2^64; `shift_word_right` = floor(a / 2^64); all 256-bit a
+// @verif prop=C02 tier=quick timeout=300
+#[kani::proof]
+#[kani::unwind(5)]
+fn c02_k5_word_shifts() {
+    let a = any_r();
+    let u = mk(a);
+    let want_l = R { h: (a.h << 64) | (a.l >> 64), l: a.l << 64 };
+    let want_r = R { h: a.h >> 64, l: (a.l >> 64) | (a.h << 64) };
+    assert!(val(&u.shift_word_left()) == want_l);
+    assert!(val(&u.shift_word_right()) == want_r);
+    match u.checked_shift_word_left() {
+        None => {
+            assert!((a.h >> 64) != 0);
+        }
+        Some(x) => {
+            assert!((a.h >> 64) == 0);
+            assert!(val(&x) == want_l);
+            // no bits lost: shifting back restores a
+            assert!(val(&x.shift_word_right()) == a);
+        }
+    }
+    kani::cover!(u.checked_shift_word_left().is_none(), "overflowing word shift");
+    kani::cover!(u.checked_shift_word_left().is_some() && a.h != 0, "non-overflowing word shift of a 3-word value");
+}
+
+/// K8: `shift_left(n)` = a·2^n mod 2^256 and `shift_right(n)` = floor(a / 2^n) for all 256-bit a and ALL u32 n
+/// (n ≥ 256 gives 0); symbolic n (the word loop runs ≤ 3 times)
+// @verif prop=C02 tier=quick timeout=300
+#[kani::proof]
+#[kani::unwind(5)]
+fn c02_k8_bit_shifts() {
+    let a = any_r();
+    let n: u32 = kani::any();
+    let u = mk(a);
+    let sl = val(&u.shift_left(n));
+    let sr = val(&u.shift_right(n));
+    if n >= 256 {
+        assert!(sl == R { h: 0, l: 0 });
+        assert!(sr == R { h: 0, l: 0 });
+    } else {
+        assert!(sl == r_shl(a, n));
+        assert!(sr == r_shr(a, n));
+    }
+    kani::cover!(n > 128 && n < 192 && n % 64 != 0 && sl.h != 0, "multi-word + sub-word left shift");
+    kani::cover!(n > 64 && n < 128 && n % 64 != 0 && sr.l != 0 && sr.h != 0, "multi-word + sub-word right shift");
+    kani::cover!(n >= 256, "shift past the width");
+}
+
+/// K9: `lt/lte/gt/gte/eq` = lexicographic comparison of (h, l), i.e. comparison of the 256-bit values; `is_zero`;
+/// all 256-bit a, b
+// @verif prop=C02 tier=quick timeout=300
+#[kani::proof]
+#[kani::unwind(5)]
+fn c02_k9_compare() {
+    let a = any_r();
+    let b = any_r();
+    let (ua, ub) = (mk(a), mk(b));
+    let lt = r_lt(a, b);
+    let eq = a == b;
+    assert!(ua.lt(ub) == lt);
+    assert!(ua.lte(ub) == (lt || eq));
+    assert!(ua.gt(ub) == (!lt && !eq));
+    assert!(ua.gte(ub) == !lt);
+    assert!(ua.eq(ub) == eq);
+    assert!(ua.is_zero() == (a.h == 0 && a.l == 0));
+    kani::cover!(ua.lt(ub) && a.l > b.l, "decided by the high half against the low half");
+    kani::cover!(eq && a.h != 0, "equal");
+    kani::cover!(ua.gt(ub) && a.h == b.h, "decided by the low half");
+}
+
+/// K10: `try_into_u128` = Err(NumberDownCastError) iff the high 128 bits ≠ 0, else Ok(low 128 bits);
+/// `From<u128>`/`From<u64>` embed the value; `get_add_inverse` = (2^256 − a) mod 2^256; all 256-bit a
+// @verif prop=C02 tier=quick timeout=300
+#[kani::proof]
+#[kani::unwind(5)]
+fn c02_k10_convert_inverse() {
+    let a = any_r();
+    let x: u128 = kani::any();
+    let y: u64 = kani::any();
+    let u = mk(a);
+    match u.try_into_u128() {
+        Ok(v) => {
+            assert!(a.h == 0 && v == a.l);
+        }
+        Err(e) => {
+            assert!(a.h != 0 && e as u32 == ::whirlpool::errors::ErrorCode::NumberDownCastError as u32);
+        }
+    }
+    assert!(val(&U256Muldiv::from(x)) == R { h: 0, l: x });
+    assert!(val(&U256Muldiv::from(y)) == R { h: 0, l: y as u128 });
+    let inv = u.get_add_inverse();
+    let want = r_sub(R { h: 0, l: 0 }, a);
+    assert!(val(&inv) == want);
+    assert!(u.add(inv).is_zero());
+    kani::cover!(u.try_into_u128().is_ok() && a.l > u64::MAX as u128, "fits u128, two words");
+    kani::cover!(u.try_into_u128().is_err(), "does not fit");
+    kani::cover!(a.l == 0 && a.h != 0, "inverse of a multiple of 2^128");
+}
+
+// ---------------------------------------------------------------------------------------------
+// §2 K1 mul_u256, K11 U256Muldiv::mul
+
+/// K1 (full width): `mul_u256(v, n)` = v·n exactly (256-bit) for ALL u128 v, n — reference: column-wise schoolbook
+/// over four u64×u64→u128 partial products with explicit carries; also no arithmetic-overflow panic inside
+/// `mul_u256`. SMT back end (cvc5): the four products are the same terms on both sides, the carry logic is decided.
+// @verif prop=C02 tier=quick timeout=300
+#[kani::proof]
+#[kani::solver(cvc5)]
+#[kani::unwind(5)]
+fn c02_k1_mul_u256_full() {
+    let v: u128 = kani::any();
+    let n: u128 = kani::any();
+    let r = mul_u256(v, n);
+    assert!(val(&r) == r_mul128::<true>(v, n));
+    kani::cover!(r.get_word(3) == u64::MAX, "top limb saturated");
+}
+
+/// K1 (sub-domain v < 2^64 and n < 2^64, SAT back end as an independent cross-check of the cvc5 result):
+/// `mul_u256(v, n)` = the single limb product, high half 0
+// @verif prop=C02 tier=quick timeout=300
+#[kani::proof]
+#[kani::solver(kissat)]
+#[kani::unwind(5)]
+fn c02_k1_mul_u256_64x64() {
+    let v: u64 = kani::any();
+    let n: u64 = kani::any();
+    let r = mul_u256(v as u128, n as u128);
+    assert!(val(&r) == r_mul128::<false>(v as u128, n as u128));
+    kani::cover!(r.get_word(1) > (1 << 63), "two-word product");
+}
+
+/// K11 (sub-domain a, b < 2^64): `U256Muldiv::mul` = a·b (no reduction happens below 2^128)
+// @verif prop=C02 tier=quick timeout=300
+#[kani::proof]
+#[kani::solver(kissat)]
+#[kani::unwind(5)]
+fn c02_k11_mul_64x64() {
+    let a: u64 = kani::any();
+    let b: u64 = kani::any();
+    let r = U256Muldiv::from(a).mul(U256Muldiv::from(b));
+    assert!(val(&r) == r_mul128::<false>(a as u128, b as u128));
+    kani::cover!(r.get_word(1) > (1 << 63), "two-word product");
+    kani::cover!(a == 0 && b != 0, "zero factor (num_words = 0)");
+}
+
+// K11 at a, b < 2^128 (four limb products against the reference) did not finish in 600–900 s with CaDiCaL, Kissat
+// or cvc5 (also not with the word counts scripted): left out. `mul`'s reduction mod 2^256 is therefore only
+// exercised indirectly (K12 harnesses compute q·d with it).
+
+// ---------------------------------------------------------------------------------------------
+// §3 K12 smoke checks. `U256Muldiv::div` is an ASSUMED kernel of Engine M (floor quotient and remainder);
+// the harnesses below decide q·d + r == n ∧ r < d only on the stated sub-domains, using the crate's own
+// mul/add/lt/eq (contracts K3, K9, K11).
+
+/// limb with `BITS` symbolic bits at bit position `pos` (all other bits 0)
+fn limb<const BITS: u32>(pos: u32) -> u64 {
+    let b: u8 = kani::any();
+    kani::assume((b as u32) < (1u32 << BITS));
+    (b as u64) << pos
+}
+fn limb3(pos: u32) -> u64 {
+    limb::<3>(pos)
+}
+fn hi_lo(h: u64, l: u64) -> u128 {
+    ((h as u128) << 64) | l as u128
+}
+
+static mut NW_SCRIPT: [usize; 2] = [0; 2];
+static mut NW_POS: usize = 0;
+/// Self-checking case-split hint replacing the private `U256Muldiv::num_words`: the first two calls (dividend,
+/// then divisor, at the top of `div`) return the constant the harness announced in `NW_SCRIPT` after ASSERTING
+/// that it is the real word count; all later calls compute the real count. It does not change any value; it
+/// only lets symbolic execution see the word counts as constants, so that the paths of `div` that the harness
+/// domain excludes (and their 128-bit divider circuits) are not encoded at all (3-by-2: > 600 s → 170 s).
+fn scripted_num_words(u: &U256Muldiv) -> usize {
+    let real = if u.items[3] != 0 {
+        4
+    } else if u.items[2] != 0 {
+        3
+    } else if u.items[1] != 0 {
+        2
+    } else if u.items[0] != 0 {
+        1
+    } else {
+        0
+    };
+    unsafe {
+        if NW_POS < 2 {
+            let k = NW_SCRIPT[NW_POS];
+            NW_POS += 1;
+            assert!(real == k, "num_words script matches the real word count");
+            k
+        } else {
+            real
+        }
+    }
+}
+
+/// q·d + r == n ∧ r < d for (q, r) = n.div(d, true), with the crate's own mul/add/eq/lt (contracts K3, K9, K11)
+fn div_ok(n: U256Muldiv, d: U256Muldiv, words_n: usize, words_d: usize) -> (U256Muldiv, U256Muldiv) {
+    unsafe {
+        NW_SCRIPT = [words_n, words_d];
+    }
+    let (q, r) = n.div(d, true);
+    let back = q.mul(d).add(r);
+    assert!(back.eq(n), "q*d + r == n");
+    assert!(r.lt(d), "r < d");
+    (q, r)
+}
+
+/// K12a smoke (native-u128 path of `div`, 2-word ÷ 2-word): q·d + r == n ∧ r < d; NB symbolic bits per limb
+// @verif prop=C02 tier=quick timeout=300
+#[kani::proof]
+#[kani::unwind(6)]
+#[kani::stub(::whirlpool::math::u256_math::U256Muldiv::num_words, scripted_num_words)]
+fn c02_k12_div_native_2by2() {
+    let n = U256Muldiv { items: [limb::<6>(0), limb::<6>(58), 0, 0] };
+    let d = U256Muldiv { items: [limb::<3>(0), limb::<3>(30), 0, 0] };
+    kani::assume(n.items[1] != 0 && d.items[1] != 0);
+    let (q, r) = div_ok(n, d, 2, 2);
+    kani::cover!(q.get_word(0) > 1 && !r.is_zero(), "inexact quotient > 1");
+}
+
+/// K12a smoke (native-u128 path of `div`, 2-word ÷ 1-word)
+// @verif prop=C02 tier=quick timeout=300
+#[kani::proof]
+#[kani::unwind(6)]
+#[kani::stub(::whirlpool::math::u256_math::U256Muldiv::num_words, scripted_num_words)]
+fn c02_k12_div_native_2by1() {
+    let n = U256Muldiv { items: [limb::<3>(0), limb::<3>(61), 0, 0] };
+    let d = U256Muldiv { items: [limb::<3>(0) | limb::<3>(30), 0, 0, 0] };
+    kani::assume(n.items[1] != 0 && d.items[0] != 0);
+    let (q, r) = div_ok(n, d, 2, 1);
+    kani::cover!(q.get_word(1) != 0 && !r.is_zero(), "two-word quotient, non-zero remainder");
+}
+
+/// K12b smoke, Knuth path, 4-word ÷ 2-word: every limb has 3 symbolic bits (low limbs at bit 0 resp. 31, the top
+/// limb of the dividend at bit 61 and of the divisor at bit 30, so both operands are normalised by a symbolic
+/// shift of 31..=33 bits and the dividend spills into the carry word)
+// @verif prop=C02 tier=thorough timeout=900
+#[kani::proof]
+#[kani::unwind(6)]
+#[kani::stub(::whirlpool::math::u256_math::U256Muldiv::num_words, scripted_num_words)]
+fn c02_k12_div_knuth_4by2() {
+    let n = U256Muldiv { items: [limb3(0), limb3(31), limb3(0), limb3(61)] };
+    let d = U256Muldiv { items: [limb3(0), limb3(30), 0, 0] };
+    kani::assume(n.items[3] != 0 && d.items[1] != 0);
+    let (q, r) = div_ok(n, d, 4, 2);
+    kani::cover!(q.get_word(2) != 0 && !r.is_zero(), "3-word quotient, non-zero remainder");
+}
+
+/// K12b smoke, Knuth path, 3-word ÷ 2-word (same limb pattern; two div_loop iterations, no carry word)
+// @verif prop=C02 tier=thorough timeout=900
+#[kani::proof]
+#[kani::unwind(6)]
+#[kani::stub(::whirlpool::math::u256_math::U256Muldiv::num_words, scripted_num_words)]
+fn c02_k12_div_knuth_3by2() {
+    let n = U256Muldiv { items: [limb3(0), limb3(31), limb3(61), 0] };
+    let d = U256Muldiv { items: [limb3(0), limb3(30), 0, 0] };
+    kani::assume(n.items[2] != 0 && d.items[1] != 0);
+    let (q, r) = div_ok(n, d, 3, 2);
+    kani::cover!(q.get_word(1) != 0 && !r.is_zero(), "2-word quotient, non-zero remainder");
+}
+
+static mut OOB_READ: bool = false;
+/// recording replacement of `U256Muldiv::get_word_u128`: identical for index < 4; for index ≥ 4 (where the real
+/// function panics with index-out-of-bounds) it sets `OOB_READ` and returns 0 so that the path can be observed.
+fn spy_get_word_u128(u: &U256Muldiv, index: usize) -> u128 {
+    if index >= 4 {
+        unsafe {
+            OOB_READ = true;
+        }
+        return 0;
+    }
+    u.items[index] as u128
+}
+
+/// K12b smoke, Knuth path, 4-word ÷ 3-word (same limb pattern): q·d + r == n ∧ r < d on every execution in which
+/// `div` does not panic. OBSERVATION (code defect, recorded in DESIGN; no property constrains it because only
+/// successful computations are constrained): in `div_loop`'s add-back branch (`k > d_head`) the statement
+/// `let new_carry = dividend.get_word_u128(index + num_divisor_words)…` (u256_math.rs:576) is evaluated also when
+/// `use_carry` (index + num_divisor_words == 4), i.e. it reads `items[4]` and PANICS. The first cover below is
+/// satisfied: the panic is reachable in this domain, e.g. n.items = [5, 6<<31, 0, 3<<61], d.items = [6, 0, 2<<30, 0];
+/// through the public API (natively confirmed, debug and release):
+///   try_get_amount_delta_a(33339991686239204854474 /*p(150000)*/, 33341658644150610826172 /*p(150001)*/,
+///                          276488252483076937113912584913284308804 /*liquidity*/, _) panics,
+///   get_amount_delta_a(406113483393643373014939, 406133788560196581447978, 185938681709293775685229341057142750755, true) panics.
+/// The harness also proves that on every such path the true quotient is ≥ 2^64 (n ≥ d·2^64): add-back in the carry
+/// iteration needs a non-zero leading quotient digit, so a non-panicking `div` could only have produced a result
+/// that callers reject (TokenMaxExceeded / ExceedsMax); amounts that fit u64 never reach it. It needs a 3- or
+/// 4-word divisor (for ≤ 2-word divisors Knuth's qhat test is exact and add-back never happens), i.e. only
+/// `try_get_amount_delta_a` with p_lower·p_upper ≥ 2^128.
+// @verif prop=C02 tier=thorough timeout=900
+#[kani::proof]
+#[kani::unwind(6)]
+#[kani::stub(::whirlpool::math::u256_math::U256Muldiv::num_words, scripted_num_words)]
+#[kani::stub(::whirlpool::math::u256_math::U256Muldiv::get_word_u128, spy_get_word_u128)]
+fn c02_k12_div_knuth_4by3() {
+    let n = U256Muldiv { items: [limb3(0), limb3(31), limb3(0), limb3(61)] };
+    let d = U256Muldiv { items: [limb3(0), limb3(0), limb3(30), 0] };
+    kani::assume(n.items[3] != 0 && d.items[2] != 0);
+    unsafe {
+        NW_SCRIPT = [4, 3];
+    }
+    let (q, r) = n.div(d, true);
+    let oob = unsafe { OOB_READ };
+    if oob {
+        // the real code has panicked here; (q, r) are meaningless
+        assert!(n.gte(d.shift_word_left()), "panic only when the true quotient is >= 2^64");
+    } else {
+        let back = q.mul(d).add(r);
+        assert!(back.eq(n), "q*d + r == n");
+        assert!(r.lt(d), "r < d");
+    }
+    kani::cover!(oob, "add-back in the carry iteration reads items[4]: index-out-of-bounds panic in the real code");
+    kani::cover!(!oob && q.get_word(1) != 0 && !r.is_zero(), "no panic: 2-word quotient, non-zero remainder");
+}
+
+static mut ADD_BACK: bool = false;
+/// replacement of `u128::wrapping_add` that also records the call. Inside `div`/`div_loop` the only calls are
+/// in the add-back branch (`k > d_head`), so the flag read right after `div` means "add-back was executed".
+fn spy_wrapping_add(a: u128, b: u128) -> u128 {
+    unsafe {
+        ADD_BACK = true;
+    }
+    a.overflowing_add(b).0
+}
+
+/// K12b smoke, add-back branch of `div_loop` (`k > d_head`): 3-word ÷ 3-word with low limbs at bit 0 and top limbs
+/// at bit 61 (contains Hacker's Delight's add-back case (2^191 + 3) / (2^189 + 1)); the cover proves the branch is
+/// executed inside the domain (observed through a recording replacement of `u128::wrapping_add`, which `div`
+/// only calls there)
+// @verif prop=C02 tier=quick timeout=300
+#[kani::proof]
+#[kani::unwind(6)]
+#[kani::stub(::whirlpool::math::u256_math::U256Muldiv::num_words, scripted_num_words)]
+#[kani::stub(u128::wrapping_add, spy_wrapping_add)]
+fn c02_k12_div_knuth_addback() {
+    let n = U256Muldiv { items: [limb3(0), limb3(0), limb3(61), 0] };
+    let d = U256Muldiv { items: [limb3(0), limb3(0), limb3(61), 0] };
+    kani::assume(n.items[2] != 0 && d.items[2] != 0);
+    unsafe {
+        NW_SCRIPT = [3, 3];
+    }
+    let (q, r) = n.div(d, true);
+    let add_back = unsafe { ADD_BACK };
+    let back = d.mul(q).add(r);
+    assert!(back.eq(n), "q*d + r == n");
+    assert!(r.lt(d), "r < d");
+    kani::cover!(add_back, "add-back branch of div_loop executed");
+    kani::cover!(!add_back && q.get_word(0) > 1, "no add-back, quotient > 1");
+}
+
+// ---------------------------------------------------------------------------------------------
+// §4 twin
+
+/// vacuity twin: must FAIL (a sum that wraps past 2^256 is reachable)
+// @verif prop=C02 tier=quick timeout=300 twin
+#[kani::proof]
+#[kani::unwind(5)]
+fn c02_twin_must_fail() {
+    let a = any_r();
+    let b = any_r();
+    let s = mk(a).add(mk(b));
+    assert!(!s.lt(mk(a)), "twin: a wrapping 256-bit sum must be reported");
+}
